@@ -140,6 +140,14 @@ impl<'a> CoverageChecker<'a> {
                 self.validate_match(computation, *scrut, arms)
             }
             | Computation::CoMatch(CoMatch { arms }) => self.validate_comatch(computation, arms),
+            // A binder is a match with a single arm: it must be irrefutable, because a
+            // value that does not fit it has no other arm to go to at run time.
+            | Computation::Let(Let { binder, .. })
+            | Computation::Do(Bind { binder, .. })
+            | Computation::VAbs(Abs(binder, _))
+            | Computation::Fix(Fix(binder, _)) => {
+                self.validate_pattern_matrix(computation, std::iter::once(*binder), None, false)
+            }
             | _ => Vec::new(),
         };
         let binder_errors = self
